@@ -283,11 +283,12 @@ def dispatch_shape(ck, P, cfg):
     cr = P.fn(Z + "crc32::crc32")
     if ck.anchor("fn crc32::crc32", cr):
         ck.use_fn(cr)
-        br = cr.live_calls(r"crc32::crc32_braid$")
+        # the module's thin wrapper or, when that is folded into crc32(), the braid kernel itself
+        br = cr.live_calls(r"crc32::(braid::)?crc32_braid$")
         okb = False
-        if br:
-            ss = shape.dominating_sigs(cr, br[0].bb)
-            okb = any(s.rel == "Le" and 63 in s.hi_consts and any("len" in c for c in s.lo_calls) for s in ss) or \
+        for c in br:
+            ss = shape.dominating_sigs(cr, c.bb)
+            okb = okb or any(s.rel == "Le" and 63 in s.hi_consts and any("len" in c2 for c2 in s.lo_calls) for s in ss) or \
                 any(s.rel in ("Lt", "Le") and (63 in s.consts or 64 in s.consts) for s in ss)
         ck.decide(okb, "ATOM/crc-short", "crc32@" + cfg, "buffers shorter than 64 bytes go to the braid kernel",
                   "crc32() no longer routes short (< 64 byte) buffers to the braid kernel: the fold kernel requires 64 bytes on its first call", where(cr))
